@@ -187,7 +187,7 @@ def append_of(x):
 
 def config_reports(model, rep, r):
     rel = model.rel("system")
-    fn = model.own_method("System", "_pars_and_limits")
+    fn = model.norm_method("System", "_pars_and_limits")
     if fn is None:
         raise AnalysisError("System._pars_and_limits not found")
     where = "%s:%d" % (rel, fn.lineno)
@@ -265,7 +265,7 @@ def config_reports(model, rep, r):
         rep.violation("R5", "components._Component._get_params", "%s:%d" % (model.rel("components"), gp.lineno), "parameters are not reported as stored (tables as 'interp')", "get_params")
     rep.instance("R5", "components._Component._get_params", "%s:%d" % (model.rel("components"), gp.lineno), ok)
     # _filt_lim blanks exactly the default
-    fl = model.own_method("System", "_filt_lim")
+    fl = model.norm_method("System", "_filt_lim")
     ok = False
     NODE, KEY = [a.arg for a in fl.args.args][1:3]
     body = [s_ for s_ in fl.body if not (isinstance(s_, ast.Expr) and isinstance(s_.value, ast.Constant))]
@@ -280,7 +280,7 @@ def config_reports(model, rep, r):
         rep.violation("R5", "system.System._filt_lim", "%s:%d" % (rel, fl.lineno), "limits are not shown as 'the configured pair unless it equals the default'", "filt_lim")
     rep.instance("R5", "system.System._filt_lim", "%s:%d" % (rel, fl.lineno), ok)
     # phases(): the per-phase value goes to the column of the load's kind
-    ph = model.own_method("System", "phases")
+    ph = model.norm_method("System", "phases")
     ok = True
     hd = {}
     frames = [c for c in ast.walk(ph) if isinstance(c, ast.Call) and ast.unparse(c.func) == "pd.DataFrame" and c.args and isinstance(c.args[0], ast.Name)]
